@@ -9,6 +9,7 @@ import (
 	"path/filepath"
 	"sort"
 	"testing"
+	"time"
 
 	"github.com/feichai0017/NoKV/kv"
 	"github.com/feichai0017/NoKV/lsm"
@@ -36,7 +37,7 @@ func genC14(r *sim.Rand, tier string) *sim.Case {
 		"kind":        int64(r.Intn(3)),
 		"block_size":  r.Pick64(64, 128, 256, 1024, 4096),
 		"bloom_milli": r.Pick64(0, 10),
-		"block_cache": r.Pick64(0, 0, 8),
+		"block_cache": r.Pick64(0, 4096, 4096), // ristretto charges ~56 bytes of internal cost per item: below ~64 nothing is ever admitted
 		"verify_bit":  int64(r.Intn(8)),
 		"max_bits":    48000,
 	}}
@@ -625,6 +626,58 @@ func (w *c14World) sstKind() {
 				}
 			}
 			_ = th.CloseHandle()
+		}
+		// Cache-warming paths: a block first loaded by the hot-key prefetch
+		// (table.prefetchBlockForKey) or by an iterator's prefetch workers must be
+		// verified like any other; later reads get it as a cache hit. Fresh handle
+		// and fresh file id, so nothing of the pass above is cached.
+		if oerr == nil && w.c.CfgInt("block_cache", 0) > 0 {
+			fid2 := fid + 1<<20
+			path2 := utils.FileNameSSTable(w.dir, fid2)
+			if err := os.WriteFile(path2, buf, 0o644); err == nil {
+				if th2, err := env.Open(fid2); err == nil {
+					res.Faults["bit_flips_sst_prefetch_pass"]++
+					for i := range st {
+						if th2.Prefetch(st[i].key) {
+							res.Probes["sst_prefetch_loaded_block"]++
+						} else {
+							res.Probes["sst_prefetch_refused_block"]++
+						}
+					}
+					time.Sleep(time.Millisecond) // cache admission is asynchronous
+					for i := range st {
+						if e, serr := th2.Search(st[i].key, kv.ParseTs(st[i].key)-1); serr == nil && e != nil {
+							check(bit, "search_after_prefetch", i, e)
+						} else {
+							res.Checks++
+						}
+					}
+					_ = th2.Guard("prefetch scan", func() {
+						for pass := 0; pass < 2; pass++ {
+							it := th2.NewPrefetchIterator(2)
+							n := 0
+							for it.Rewind(); it.Valid() && n < 4*len(st)+8; it.Next() {
+								if it.Item() == nil || it.Item().Entry() == nil {
+									break
+								}
+								e := it.Item().Entry()
+								n++
+								if i, ok := sort.Find(len(st), func(i int) int { return utils.CompareKeys(e.Key, st[i].key) }); ok {
+									check(bit, "scan_with_prefetch", i, e)
+								} else {
+									res.Checks++
+									res.Violate(bit, "corrupt_served", map[string]string{"artefact": "sst", "api": "scan_with_prefetch", "field": "data_block"},
+										"bit %d flipped: prefetching scan returned %s, a key that was never stored", bit, descEnt(e))
+								}
+							}
+							_ = it.Close()
+							time.Sleep(time.Millisecond)
+						}
+					})
+					_ = th2.CloseHandle()
+				}
+				_ = os.Remove(path2)
+			}
 		}
 		_ = os.Remove(path)
 		res.Trace.Add("sst bit %d: open=%v found=%d errs=%d scanned=%d", bit, oerr == nil, found, errs, scanned)
